@@ -267,15 +267,23 @@ pub fn run(ctx: &mut Ctx, hostile: bool) {
     let mut samples: HashMap<(String, usize), Vec<Vec<u8>>> = HashMap::new(); // per (value, length): all draws of this run
     // two extra databases whose encrypted payload is exactly 1 MiB and one and a half MiB (block-size boundaries of the
     // HMAC block stream: KeePass splits at 1 MiB, this library writes one block)
-    let extra = if hostile { 0 } else { 2 };
+    let extra = if hostile { 0 } else { 3 };
     for ci in 0..count + extra {
         let mut rng = ctx.rng.fork();
         let creds = frame::gen_creds(&mut rng);
         let comp = ref_composite(&creds.pw, &creds.kf).unwrap();
         let key = make_key(&creds.pw, &creds.kf);
         let (db, features) = if ci >= count {
+            if ci == count + 2 {
+                // GZip with a payload deflate cannot shrink: 4 MiB of random bytes next to a small document
+                let mut db = big_db(&mut rng, 1usize << 20, &key, &comp);
+                db.config.compression_config = CompressionConfig::GZip;
+                db.header_attachments[0].content = rng.bytes(4 << 20);
+                (db, std::collections::BTreeSet::new())
+            } else {
             let target = if ci == count { 1usize << 20 } else { (1usize << 20) + (1 << 19) + 13 };
             (big_db(&mut rng, target, &key, &comp), std::collections::BTreeSet::new())
+            }
         } else {
             let mut g = Gen::new(&mut rng, hostile);
             let db = g.database();
